@@ -1,4 +1,5 @@
 import D2P.Proofs.Erase
+import D2P.Proofs.Hyperlink
 import D2P.Spec.Skeleton
 /-!
 # The walk refines the structural machine (`walk_abs`)
@@ -174,6 +175,22 @@ theorem insertOpt_abs (html : Bool) (s s' : DC) (t : Option Str) (h : insertOpt 
 
 theorem imageRun_rels (cfg : PartCfg) (x : Xml) (a : String) : imageRun (relsCfg cfg.rels) x a = imageRun cfg x a := rfl
 
+theorem openHyperlink_abs (cfg : PartCfg) (s s' : DC) (x : Xml) (roots : List (List Nest))
+    (h : openHyperlink cfg s x roots = .ok s') : (absDC s).ensureParA = .ok (absDC s') := by
+  unfold openHyperlink at h
+  obtain ⟨tx, _, h⟩ := bind_ok h
+  obtain ⟨qs, _, h⟩ := bind_ok h
+  obtain ⟨s1, h1, h⟩ := bind_ok h
+  obtain ⟨rn, _, h⟩ := bind_ok h
+  obtain ⟨s2, h2, h⟩ := bind_ok h
+  obtain ⟨qe, _, h⟩ := bind_ok h
+  have e1 : absDC s1 = absDC s := foldIds_preserves (P := fun a => absDC a = absDC s) DC.startRange
+    (fun a id b ha hb => (startRange_abs a b id hb).trans ha) _ s s1 rfl h1
+  have e2 := insertNewRun_abs cfg.html s1 s2 _ h2
+  have e3 : absDC s' = absDC s2 := foldIds_preserves (P := fun a => absDC a = absDC s2) DC.endRange
+    (fun a id b ha hb => (endRange_abs a b id hb).trans ha) _ s2 s' rfl h
+  rw [← e1, e3]; exact e2
+
 theorem text_case {x : M DC} {a : DC} {s' : DC} {r d : Bool} (w : M (DC × Bool)) (hw : w = .ok (s', r))
     (hx : ∀ t, w = .ok (t, r) → a.ensureParA = .ok (absDC t) ∧ r = d) :
     (a.ensureParA >>= fun a' => pure (a', d)) = .ok (absDC s', r) := by
@@ -219,8 +236,7 @@ theorem openStep_abs (cfg : PartCfg) (s s' : DC) (x : Xml) (c : Bool) (roots : L
     simp only [hs, ok_bind, pure, Except.pure]
     cases sep <;> simp [he]
   · obtain ⟨h1, h2⟩ := withFalse_ok h; subst h2
-    obtain ⟨tx, _, h1⟩ := bind_ok h1; obtain ⟨rn, _, h1⟩ := bind_ok h1
-    simp only [pure, Except.pure, ok_bind, insertNewRun_abs cfg.html s s' _ h1]
+    simp only [pure, Except.pure, ok_bind, openHyperlink_abs cfg s s' x roots h1]
   · obtain ⟨h1, h2⟩ := withTrue_ok h; subst h2
     obtain ⟨tx, _, h1⟩ := bind_ok h1
     simp only [pure, Except.pure, ok_bind, insertNewRun_abs cfg.html s s' _ h1]
